@@ -367,13 +367,17 @@ class _GitFile(IO[bytes]):
         """
         if self._closed:
             return
-        self._file.close()
         try:
-            os.remove(self._lockfilename)
-            self._closed = True
-        except FileNotFoundError:
-            # The file may have been removed already, which is ok.
-            self._closed = True
+            # Closing flushes; that can fail (e.g. ENOSPC) but must not
+            # keep us from releasing the lock.
+            self._file.close()
+        finally:
+            try:
+                os.remove(self._lockfilename)
+                self._closed = True
+            except FileNotFoundError:
+                # The file may have been removed already, which is ok.
+                self._closed = True
 
     def close(self) -> None:
         """Close this file, saving the lockfile over the original.
